@@ -156,6 +156,11 @@ def check_cases(cases: list[dict], rep: Report, known: dict) -> None:
             info["exact"] = f"{q_in[1].q} vs {q_out[1].q}"
         if ok:
             continue
+        if a_out[0] == "err" and q_out[0] == "ok":
+            # exact arithmetic evaluates the output, double arithmetic does not: an intermediate of
+            # the output under- or overflowed (e.g. x*x for x = 1e-200) - outside every property
+            rep.skip("range")
+            continue
         if a_out[0] == "err" and a_out[1] == "unsupported":
             rep.skip("model-unsupported")
             continue
